@@ -65,6 +65,7 @@ func WaitCond(ctx context.Context, cond *sync.Cond, fn func() bool) error {
 		if fn() {
 			return nil
 		}
+		verifHookBeforeCondWait(cond) // no-op unless built with the verif tag
 		cond.Wait()
 	}
 }
